@@ -112,6 +112,20 @@ def exec_step(world, step, idx):
             world.count("fault_downtime")
             world.count("sim_seconds", down)
         world.start(step=idx, kind="restart")
+    elif op == "crash":
+        # the server process dies in the middle of this command (before its n-th database
+        # call); it is started again on what the files hold
+        m = resolve(world, step["m"])
+        if m is not UNRESOLVED and step["c"] in world.conns and world.conns[step["c"]].alive:
+            world.arm_death(step["after"])
+            world.send(step["c"], [m], step=idx)
+            if not world.running:
+                down = step.get("down", 0.0)
+                if down:
+                    world.t_resume += down
+                    world.count("fault_downtime")
+                    world.count("sim_seconds", down)
+                world.start(step=idx, kind="restart")
     elif op == "reconnect":
         # a client that lost its connection comes back on a new one: it still
         # knows what it had been told (`last`), binds again and re-opens its mailbox
